@@ -64,6 +64,8 @@ Body(zz) ==
     [] zz.shape = "bare"  -> << <<"A", "::", "1">>, <<"BLK", ":">> >> \o ZoneBare(1, zz) \o << <<"C", "::", "3">> >>
     [] zz.shape = "baresib" -> << <<"BLK", ":">> >> \o ZoneBare(1, zz) \o << <<"  ", "B", "::", "2">> >>
     [] zz.shape = "two"   -> ZoneAssign(0, "Z", zz) \o ZoneAssign(0, "Y", Second) \o << <<"B", "::", "2">> >>
+    [] zz.shape = "tworev" -> ZoneAssign(0, "Y", Second) \o ZoneAssign(0, "Z", zz) \o << <<"B", "::", "2">> >>
+    [] zz.shape = "three" -> << <<"BLK", ":">> >> \o ZoneAssign(1, "Y", Second) \o ZoneAssign(1, "Z", zz) \o << <<"  ", "B", "::", "2">> >> \o ZoneAssign(0, "X", Second)
     [] zz.shape = "cmt"   -> << <<"//", " ", "before">> >> \o ZoneAssign(0, "Z", zz) \o << <<"//", " ", "after">>, <<"B", "::", "2">> >>
     [] OTHER (* "last" : zone is the last thing, no END, no final newline *) -> << <<"A", "::", "1">> >> \o ZoneAssign(0, "Z", zz)
 
@@ -72,7 +74,9 @@ Render(zz) == << <<"===", "DOC", "===">> >> \o Body(zz) \o (IF zz.shape = "last"
 (* ---------------------------------------------------------------------------------- *)
 (* what every pipeline must hand back                                                   *)
 ZoneAbs(zz) == [fence |-> zz.fence, tag |-> zz.tag, lines |-> [j \in 1..Len(zz.ls) |-> LineEnc(zz.ls[j])]]
-ExpectedZones(zz) == IF zz.shape = "two" THEN <<ZoneAbs(zz), ZoneAbs(Second)>> ELSE <<ZoneAbs(zz)>>
+ExpectedZones(zz) == IF zz.shape = "two" THEN <<ZoneAbs(zz), ZoneAbs(Second)>>
+                     ELSE IF zz.shape = "tworev" THEN <<ZoneAbs(Second), ZoneAbs(zz)>>
+                     ELSE IF zz.shape = "three" THEN <<ZoneAbs(Second), ZoneAbs(zz), ZoneAbs(Second)>> ELSE <<ZoneAbs(zz)>>
 (* neighbours: <<depth, key>> of every node that is not the zone, in order; values are checked by C02 *)
 ExpectedOthers(zz) ==
   CASE zz.shape = "top"   -> << <<0, "A">>, <<0, "Z">>, <<0, "B">> >>
@@ -82,6 +86,8 @@ ExpectedOthers(zz) ==
     [] zz.shape = "bare"  -> << <<0, "A">>, <<0, "BLK">>, <<1, "">>, <<0, "C">> >>
     [] zz.shape = "baresib" -> << <<0, "BLK">>, <<1, "">>, <<1, "B">> >>
     [] zz.shape = "two"   -> << <<0, "Z">>, <<0, "Y">>, <<0, "B">> >>
+    [] zz.shape = "tworev" -> << <<0, "Y">>, <<0, "Z">>, <<0, "B">> >>
+    [] zz.shape = "three" -> << <<0, "BLK">>, <<1, "Y">>, <<1, "Z">>, <<1, "B">>, <<0, "X">> >>
     [] zz.shape = "cmt"   -> << <<0, "Z">>, <<0, "B">> >>
     [] OTHER              -> << <<0, "A">>, <<0, "Z">> >>
 
